@@ -688,6 +688,14 @@ func (p *nriPlugin) getPendingUpdates(skip *api.Container) []*api.ContainerUpdat
 			continue
 		}
 
+		// never address an update to a container the runtime has stopped or removed
+		if state := c.GetState(); state != cache.ContainerStateCreated && state != cache.ContainerStateRunning {
+			for _, ctrl := range c.GetPending() {
+				c.ClearPending(ctrl)
+			}
+			continue
+		}
+
 		if u := c.GetPendingUpdate(); u != nil {
 			p.setDefaultClasses(c, u)
 			updates = append(updates, u)
